@@ -492,6 +492,14 @@ func GenCounts(r *Rand, cfg *telemetry.UploadConfig, prog string, maxn int) []KV
 		if seen[k] || strings.Contains(k, "\"") {
 			continue
 		}
+		if strings.Contains(k, "\n") && r.Chance(6) {
+			// the same title with a deep, ditto-compressed stack around the name-length limit
+			d := GenDeepStack(r, k[:strings.Index(k, "\n")])
+			if !seen[d] {
+				seen[d] = true
+				out = append(out, KV{d, GenValue(r)})
+			}
+		}
 		seen[k] = true
 		out = append(out, KV{k, GenValue(r)})
 	}
@@ -865,4 +873,180 @@ func GenSharedNamesWeek(r *Rand, x float64) (*telemetry.UploadConfig, []FileSpec
 		files[i], files[j] = files[j], files[i]
 	}
 	return cfg, files
+}
+
+// ---------------------------------------------------------------- what a written count file MEANS (reference reading)
+
+// RefDecodeStack: the documented meaning of a stored stack-counter name: in
+// every line after a use of an import path, a path written as the ditto mark
+// `"` stands for the last import path written out.
+func RefDecodeStack(ename string) string {
+	if !strings.Contains(ename, "\n") {
+		return ename
+	}
+	lines := strings.Split(ename, "\n")
+	last := ""
+	for i, line := range lines {
+		j := strings.LastIndex(line, ".")
+		if j < 0 {
+			continue
+		}
+		p, rest := line[:j], line[j+1:]
+		if p == "" {
+			continue
+		}
+		if p == `"` {
+			lines[i] = last + rest
+		} else {
+			last = p + "."
+		}
+	}
+	return strings.Join(lines, "\n")
+}
+
+// RefFile: the metadata identity and the Count map a written file stands for
+// (names decoded), independent of the implementation's parser.
+func RefFile(fs FileSpec) (map[string]string, map[string]uint64) {
+	meta := map[string]string{}
+	vals := []string{fs.ID.Program, fs.ID.Version, fs.ID.GoVersion, fs.ID.GOOS, fs.ID.GOARCH}
+	for i, k := range []string{"Program", "Version", "GoVersion", "GOOS", "GOARCH"} {
+		if fs.Omit != i+1 {
+			meta[k] = vals[i]
+		}
+	}
+	count := map[string]uint64{}
+	for _, kv := range fs.Counts {
+		count[RefDecodeStack(kv.K)] = kv.V
+	}
+	return meta, count
+}
+
+// SameAsRef: does the implementation's parse agree with the reference reading
+func SameAsRef(fs FileSpec, meta map[string]string, count map[string]uint64, err error) bool {
+	if err != nil {
+		return false
+	}
+	rm, rc := RefFile(fs)
+	for k, v := range rm {
+		if meta[k] != v {
+			return false
+		}
+	}
+	if len(rc) != len(count) {
+		return false
+	}
+	for k, v := range rc {
+		if w, ok := count[k]; !ok || w != v {
+			return false
+		}
+	}
+	return true
+}
+
+// GenDeepStack: a stack counter as EncodeStack stores it for a deep stack in
+// one package: the import path written once, then ditto marks; the STORED name
+// stays within the 4096-byte limit of a counter name while the DECODED name
+// lands on a chosen side of it (4095, 4096, 4097, well above), or the stored
+// name itself has exactly the limit.
+func GenDeepStack(r *Rand, title string) string {
+	const limit = 4096
+	pathLen := 40 + r.Intn(300)
+	path := strings.Repeat("p", pathLen-2) + "/q"
+	first := path + ".f0:+1,+0x1"
+	name := title + "\n" + first
+	decoded := len(name)
+	target := Pick(r, []int{limit - 1, limit, limit + 1, limit + 1 + r.Intn(3000), limit - r.Intn(500)})
+	if r.Chance(15) {
+		// no compression at all: the stored name itself has exactly the limit (or one less)
+		want := limit - r.Intn(2)
+		fill := want - len(title) - 1
+		if fill < 3 {
+			fill = 3
+		}
+		return title + "\n" + strings.Repeat("x", fill-2) + ".f"
+	}
+	for i := 1; ; i++ {
+		fn := fmt.Sprintf("f%d:+%d,+0x%x", i, i%7, i)
+		add := 1 + len(path) + 1 + len(fn) // newline + path + "." + fn, decoded
+		if decoded+add > target {
+			// pad the last frame so that the decoded length is exactly the target
+			pad := target - decoded - 1 - len(path) - 1
+			if pad >= 1 {
+				name += "\n\"." + strings.Repeat("z", pad)
+				decoded = target
+			}
+			break
+		}
+		name += "\n\"." + fn
+		decoded += add
+	}
+	if len(name) > limit || len(RefDecodeStack(name)) != decoded {
+		return title + "\n" + first // (cannot happen with these lengths; keep the file valid)
+	}
+	return name
+}
+
+// WFileRef: the wire fields of a written count file: its reference reading
+// (identity, Count map sorted by decoded name) and whether the
+// implementation's parser reads the same.
+func WFileRef(fs FileSpec, meta map[string]string, count map[string]uint64, err error) []string {
+	rm, rc := RefFile(fs)
+	return append(WFile(rm, rc), B(SameAsRef(fs, meta, count, err)))
+}
+
+// WithdrawSomething: a configuration like cfg in which something that one of
+// the files relies on is no longer (or not yet) approved.
+func WithdrawSomething(r *Rand, cfg *telemetry.UploadConfig, files []FileSpec) *telemetry.UploadConfig {
+	old := &telemetry.UploadConfig{GOOS: append([]string(nil), cfg.GOOS...), GOARCH: append([]string(nil), cfg.GOARCH...),
+		GoVersion: append([]string(nil), cfg.GoVersion...), SampleRate: cfg.SampleRate}
+	for _, p := range cfg.Programs {
+		q := *p
+		q.Versions = append([]string(nil), p.Versions...)
+		q.Counters = append([]telemetry.CounterConfig(nil), p.Counters...)
+		q.Stacks = append([]telemetry.CounterConfig(nil), p.Stacks...)
+		old.Programs = append(old.Programs, &q)
+	}
+	f := Pick(r, files)
+	without := func(l []string, x string) []string {
+		var res []string
+		for _, v := range l {
+			if v != x {
+				res = append(res, v)
+			}
+		}
+		return res
+	}
+	for tries := 0; tries < 1+r.Intn(3); tries++ {
+		switch r.Intn(6) {
+		case 0:
+			var ps []*telemetry.ProgramConfig
+			for _, p := range old.Programs {
+				if p.Name != f.ID.Program {
+					ps = append(ps, p)
+				}
+			}
+			old.Programs = ps
+		case 1:
+			for _, p := range old.Programs {
+				if p.Name == f.ID.Program && len(p.Counters) > 0 {
+					p.Counters = p.Counters[:len(p.Counters)/2]
+				}
+			}
+		case 2:
+			for _, p := range old.Programs {
+				if p.Name == f.ID.Program {
+					p.Stacks = nil
+				}
+			}
+		case 3:
+			for _, p := range old.Programs {
+				p.Versions = without(p.Versions, f.ID.Version)
+			}
+		case 4:
+			old.GoVersion = without(old.GoVersion, f.ID.GoVersion)
+		default:
+			old.GOOS = without(old.GOOS, f.ID.GOOS)
+		}
+	}
+	return old
 }
